@@ -320,6 +320,10 @@ def write_feature_problems(rd, entries):
     # solutions reported afterwards (sessions with rejected scripts excepted: a rejected part is not part of the problem)
     ents = []
     for name, parts, ok in entries:
+        if ok is False:      # no solution by construction: a reported solution would violate the problem
+            EXPECT.setdefault(name, []).append(json.dumps(
+                {'e': 'expect', 'name': name, 'var': '', 'kind': 'unsolvable', 'dom0': [], 'allowed': [], 'sat': 0, 'value': [0, 1], 'bvalue': 0},
+                separators=(',', ':')))
         if len(parts) > 1 and not name.startswith('fs_'):
             parts = list(parts)
             for k in range(1, len(parts)):
@@ -355,6 +359,10 @@ def feature_problems(rd, fams, seed, tier):
             ent += gen_features.multi_super_family()
         elif fam == 'cardinality':
             ent += gen_features.cardinality_family()
+        elif fam == 'subclass':
+            ent += gen_features.subclass_family()
+        elif fam == 'impossible':
+            ent += gen_features.impossible_family()
     return write_feature_problems(rd, ent), {n: s_ for n, p, s_ in ent}
 
 
